@@ -475,18 +475,31 @@ func render(b *strings.Builder, v reflect.Value, depth int) {
 	t := v.Type()
 	switch v.Kind() {
 	case reflect.Bool:
-		fmt.Fprintf(b, "%s(%v)", t, v.Bool())
+		b.WriteString(t.String())
+		b.WriteByte('(')
+		b.WriteString(strconv.FormatBool(v.Bool()))
+		b.WriteByte(')')
 	case reflect.Int, reflect.Int8, reflect.Int16, reflect.Int32, reflect.Int64:
-		fmt.Fprintf(b, "%s(%d)", t, v.Int())
+		b.WriteString(t.String())
+		b.WriteByte('(')
+		b.WriteString(strconv.FormatInt(v.Int(), 10))
+		b.WriteByte(')')
 	case reflect.Uint, reflect.Uint8, reflect.Uint16, reflect.Uint32, reflect.Uint64, reflect.Uintptr:
-		fmt.Fprintf(b, "%s(%d)", t, v.Uint())
+		b.WriteString(t.String())
+		b.WriteByte('(')
+		b.WriteString(strconv.FormatUint(v.Uint(), 10))
+		b.WriteByte(')')
 	case reflect.Float32, reflect.Float64:
 		fmt.Fprintf(b, "%s(%v)", t, v.Float())
 	case reflect.String:
+		// raw, length-prefixed (unambiguous without the cost of quoting; reports are JSON-escaped anyway)
+		str := v.String()
 		b.WriteString(t.String())
 		b.WriteByte('(')
-		b.WriteString(strconv.Quote(v.String()))
-		b.WriteByte(')')
+		b.WriteString(strconv.Itoa(len(str)))
+		b.WriteString(":\"")
+		b.WriteString(str)
+		b.WriteString("\")")
 	case reflect.Slice:
 		if v.IsNil() {
 			fmt.Fprintf(b, "%s(nil)", t)
@@ -571,7 +584,8 @@ func render(b *strings.Builder, v reflect.Value, depth int) {
 		}
 		render(b, e, depth+1)
 	case reflect.Struct:
-		fmt.Fprintf(b, "%s{", t)
+		b.WriteString(t.String())
+		b.WriteByte('{')
 		n := 0
 		for i := 0; i < v.NumField(); i++ {
 			f := t.Field(i)
